@@ -29,8 +29,10 @@ import (
 	"bytes"
 	"fmt"
 	"go/ast"
+	"go/constant"
 	"go/token"
 	"sort"
+	"strconv"
 	"strings"
 )
 
@@ -270,8 +272,10 @@ func shapeC08Udp(l4 *pkgInfo) []fact {
 				if len(vs.Names) == 1 && vs.Names[0].Name == "udpBufPool" {
 					ast.Inspect(vs, func(n ast.Node) bool {
 						if ce, ok := n.(*ast.CallExpr); ok && l4.src(ce.Fun) == "make" && len(ce.Args) == 2 && norm(ce.Args[0]) == "[]byte" {
-							if bl, ok := ce.Args[1].(*ast.BasicLit); ok {
-								size = bl.Value
+							if v, ok := l4.eval(ce.Args[1], 0); ok {
+								if n, exact := constant.Int64Val(constant.ToInt(v)); exact {
+									size = strconv.FormatInt(n, 10)
+								}
 							}
 						}
 						return true
